@@ -319,3 +319,34 @@ def register(mut):
         '''        void next_sync() {''',
         '''        void next_sync() {
             std::unique_ptr<int> scratch(new int(0));''', ['C20'])
+    mut('async-dtor-no-destroy', 'async.h',
+        '''    ~async() {
+        if (_h) _h.destroy();
+    }''',
+        '''    ~async() {
+    }''', ['C04'])
+    mut('async-start-on-failed-claim', 'async.h',
+        '''        if (promise._future) {
+            return start_coro();
+        }  else {
+            return nullptr;
+        }''',
+        '''        return start_coro();''', ['C04'])
+    mut('async-final-no-destroy', 'async.h',
+        '''            //now we can destroy our frame
+            me.destroy();''',
+        '''            //now we can destroy our frame
+            if (f) me.destroy();''', ['C04'])
+    mut('async-coawait-not-binding', 'async.h',
+        '''            this->_awaiter.store(this, std::memory_order_relaxed);
+            p._future = this;
+            return start_handle;''',
+        '''            this->_awaiter.store(this, std::memory_order_relaxed);
+            if (false) p._future = this;
+            return start_handle;''', ['C04'])
+    mut('async-exception-dropped', 'async.h',
+        '''    void unhandled_exception() {
+        if (_future) _future->set(std::current_exception());
+    }''',
+        '''    void unhandled_exception() {
+    }''', ['C04'])
